@@ -37,7 +37,7 @@ def units(tier):
 
 
 def qkey(q):
-    return "q" + hashlib.sha1(np.round(np.array(q, dtype=float), 9).tobytes()).hexdigest()[:6]
+    return "q" + hashlib.sha1((np.round(np.array(q, dtype=float), 9) + 0.0).tobytes()).hexdigest()[:6]
 
 
 def Dsym(q, nb, tag=""):
@@ -146,7 +146,7 @@ def dir_tag(rec_lat, q, q_direction):
     k = int(np.argmax(np.abs(c) > 1e-6))
     if c[k] < 0:
         c = -c
-    return "d" + hashlib.sha1(np.round(c, 6).tobytes()).hexdigest()[:6]
+    return "d" + hashlib.sha1((np.round(c, 6) + 0.0).tobytes()).hexdigest()[:6]          # + 0.0: -0.0 and 0.0 have different bytes
 
 
 def band_nac_unit(u, res):
